@@ -13,8 +13,8 @@ from vf.world import CELLMAP, sut
 from sketchnu.countmin import CountMinLog8, CountMinLog16
 
 RULE = (
-    "(1) configuration grid: log8 num_reserved 0..254 x max_count in {256,257,300,400,1e3,1e4,1e6,2^32-1,1e12,2^53,2^63,2^64-1}; log16 "
-    "num_reserved every 257th value plus 65530..65534 x max_count in {65536,65537,70000,1e5,1e6,2^32-1,1e12,2^53,2^63,2^64-1}; plus "
+    "(1) configuration grid: max_count in {10^k, 3*10^k, 2^k-1, 2^k, 2^k+1 for all k in range, 256, 257, 300, 400, 65536, 65537, 70000} x num_reserved 0..254 "
+    "(log8) / every 257th value plus the top 100 (quick) or 300 (thorough) values below 65535 (log16); plus "
     "Hypothesis-drawn (max_count, num_reserved) pairs. Oracle: the constructor raises ValueError, or base is finite and > 1 and the ceiling "
     "(cms[:]=umax; query) decodes to max_count within 1e-6 relative. (2) Hypothesis rule-based machine over 2 sketches of one kind (linear; "
     "heavy hitters; log8/log16 with small max_count) with adds and merges whose sums land within +-3 of the ceiling from below and beyond, "
@@ -29,8 +29,9 @@ ASSUMPTIONS = [
     "max_count < 2^64 and 0 <= num_reserved (documented domains); other exceptions than ValueError from the constructor count as violations",
 ]
 
-MAXC8 = [256, 257, 300, 400, 10**3, 10**4, 10**6, CEIL, 10**12, 2**53, 2**63, 2**64 - 1]
-MAXC16 = [65536, 65537, 70000, 10**5, 10**6, CEIL, 10**12, 2**53, 2**63, 2**64 - 1]
+_POW = sorted({10**k for k in range(3, 20)} | {2**k + d for k in range(8, 65) for d in (-1, 0, 1)} | {3 * 10**k for k in range(3, 19)})
+MAXC8 = sorted(x for x in set([256, 257, 300, 400, CEIL] + _POW) if 256 <= x < 2**64)
+MAXC16 = sorted(x for x in set([65536, 65537, 70000, CEIL] + _POW) if 65536 <= x < 2**64)
 
 
 def check_config(kind, mc, nr):
@@ -227,11 +228,11 @@ def _shard(arg):
 def run(tier, seed, rec):
     quick = tier == "quick"
     nr8 = list(range(0, 255))
-    nr16 = sorted(set(range(0, 65535, 257)) | {1023, 65530, 65531, 65532, 65533, 65534})
-    jobs = [("log8", nr8[i::8]) for i in range(8)] + [("log16", nr16[i::8]) for i in range(8)]
+    nr16 = sorted(set(range(0, 65535, 257)) | {1023} | set(range(65235 if not quick else 65435, 65535)))
+    jobs = [("log8", nr8[i::16]) for i in range(16)] + [("log16", nr16[i::16]) for i in range(16)]
     common.pool_merge(_grid_task, jobs, rec)
     if not rec.violations:
-        rec.exhaustive.append("configuration grid of sub-check 1 (log8: 255 x 12, log16: 261 x 10)")
+        rec.exhaustive.append(f"configuration grid of sub-check 1 (log8: 255 x {len(MAXC8)}, log16: {len(nr16)} x {len(MAXC16)})")
     total, shards = (4800, 16) if quick else (96000, 32)
     common.pool_merge(_cfg_shard, [(seed, i, total // shards) for i in range(shards)], rec)
     n_ex, steps, shards = (60, 30, 16) if quick else (300, 40, 32)
